@@ -62,7 +62,7 @@ extern "C" bool fn_gev(const TC *self, QE *result, const QE *expr, unsigned char
 
 // ------------------------------------------------------------------ tree mode
 struct Enc { u64 bits; unsigned len; };
-static Enc enc_leaf(unsigned id) { Enc e; e.bits = 1u | (id << 1); e.len = 5; return e; }                    // 1 iiii
+static Enc enc_leaf(unsigned id) { Enc e; e.bits = 1u | (id << 1); e.len = 4; return e; }                    // 1 iii   (K <= 7: 7*4 + 6*6 = 64 bits)
 static Enc enc_node(unsigned op, Enc l, Enc r) {                                                             // 0 ooooo <l> <r>
     Enc e; e.bits = (u64)(op << 1) | (l.bits << 6) | (r.bits << (6 + l.len)); e.len = 6 + l.len + r.len; return e;
 }
